@@ -353,6 +353,31 @@ def verifyWildcard (covers : NSEC → Name → Bool) (ansSigs : List Sig) (nsecs
   if ansSigs.all (fun s => !wildcardExpanded s || nsecs.any (fun n => covers n (nextCloser s)))
   then .ok else .fail .wildcard
 
+/-! ### the NSEC proof of an insecure delegation — `dnssec.VerifyDelegationNSEC` -/
+
+structure DelegNSEC where
+  owner : Name
+  ns : Bool      -- NS bit
+  ds : Bool      -- DS bit
+  soa : Bool     -- SOA bit
+deriving DecidableEq, Repr
+
+inductive DelegRes
+  | ok
+  | nsMissing        -- ErrNSECNSMissing
+  | badDelegation    -- ErrNSECBadDelegation
+  | noCover          -- ErrNSECMissingCoverage
+deriving DecidableEq, Repr
+
+/-- the first NSEC owned by the delegation point decides: NS set, neither DS nor SOA. -/
+def verifyDelegationNSEC (delegation : Name) : List DelegNSEC → DelegRes
+  | [] => .noCover
+  | n :: t =>
+    if n.owner != delegation then verifyDelegationNSEC delegation t
+    else if !n.ns then .nsMissing
+    else if n.ds || n.soa then .badDelegation
+    else .ok
+
 /-! ### Resolver.verifyDNSSEC after the DNSKEY fetch -/
 
 inductive VRes
